@@ -11,3 +11,4 @@ def run(ck):
     ck.out_of_scope += ['soundness of composed programs (needs induction over expressions -- a proof, not a bounded check)', 'let scoping, templates, regex operators, split/to_integer, the parser',
                         'If / Index / Access / IsMemberOf / Scope (their signature inspects nested values; not encoded yet)']
     milu_ops.run_all(ck, ck.dbs['milu'])
+    milu_ops.spec_type_eq(ck, ck.dbs['milu'])
